@@ -14,4 +14,12 @@ PROPS = {
              "and prints the prescribed tree and the values under six operand assignments; the driver renders each case in five syntactic contexts "
              "and several layouts and compares the real parser's tree and the real VM's value. Exhaustive over the stated space, so model checking is the right level.",
         note=_TRUST + "Operands are int parameters; values are compared only where the expression is inside the property's numeric domain."),
+    "C09": dict(
+        claimed=True, level="model_checking",
+        technique="TLA+ rule table (NslTypes!ResolveBinary) evaluated exhaustively by TLC with its laws as invariants; every triple replayed at the real typing interface and every spellable triple through the real compiler (spec->code conformance)",
+        text="The operator-typing rules of the statement are one TLA+ operator; TLC evaluates it on all 13 x 63 x 63 triples of the internal type universe "
+             "(laws: result shape/component, symmetry, associativity of matrix shapes) and prints the prescribed outcome; the driver calls "
+             "types.ResolveBinaryExpressionType on all 51 597 triples and compiles all 2 548 spellable programs at both optimisation levels, comparing "
+             "accept/reject, result type and operand conversions. The domain is finite and is enumerated completely.",
+        note=_TRUST + "Not judged (left open by the statement): matrix comparison, one-component vectors, vector x one-row matrix, operand conversions of comparisons."),
 }
